@@ -16,9 +16,10 @@ that leave through `break` run the real code after the loop, where the function'
 checked.  This is the usual Hoare rule for loops: (init) + (preservation for one arbitrary iteration)
 + (invariant /\\ exit => post), so every iteration count is covered.
 
-What the transformation changes is exactly the two inserted calls.  It refuses (Unsupported) when the
-body assigns a local name that the contract declares neither as state nor as temporary, or contains a
-`continue` / `return` (none of the loops under contract do).
+What the transformation changes is exactly the two inserted calls.  It refuses (Unsupported, i.e.
+undecided) when the body carries a local name from one iteration to the next that the contract does not
+declare as state (a new body-local temporary is accepted), or contains a `continue` / `return` (none of
+the loops under contract do).
 """
 import ast
 
@@ -76,7 +77,16 @@ def transform(tree, modname, loop_contracts):
             assigned |= _assigned_names([loop.target])
         undeclared = assigned - set(spec.state) - set(spec.temps)
         if undeclared:
-            raise sym.Unsupported(f"loop {key} assigns undeclared variables {sorted(undeclared)}")
+            # a new local is harmless when it is re-initialised in every iteration (first occurrence in the
+            # body is a plain store): it carries nothing from one iteration to the next
+            from . import foreach
+
+            first = {}
+            for n, k in foreach._occurrences(loop.body):
+                first.setdefault(n, k)
+            undeclared = {n for n in undeclared if first.get(n) != "store"}
+        if undeclared:
+            raise sym.Unsupported(f"loop {key} carries undeclared variables {sorted(undeclared)} from one iteration to the next")
         names = list(spec.state)
 
         def tup(ctx):
